@@ -228,8 +228,8 @@ def body_unique(case, ctx):
 def parts():
     return [
         Part("channel_grid", body_channel_pair, items=items_channel_grid, exhaustive=True),
-        Part("channel_triples", body_channel_triple, strategy=strat_channel_triples, quick=3000, thorough=20000),
+        Part("channel_triples", body_channel_triple, strategy=strat_channel_triples, quick=3000, thorough=20000, fuzz_quick=2000, fuzz_thorough=30000),
         Part("edges", body_edges, strategy=strat_edges, quick=3000, thorough=10000),
         Part("qubit_ids", body_qubits, strategy=strat_qubits, quick=2000, thorough=10000),
-        Part("unique", body_unique, strategy=strat_unique, quick=3000, thorough=20000),
+        Part("unique", body_unique, strategy=strat_unique, quick=3000, thorough=20000, fuzz_quick=2000, fuzz_thorough=30000),
     ]
